@@ -785,6 +785,7 @@ def _actuator_force(
   actuator_velocity_in: wp.array2d[float],
   # In:
   dsbl_clampctrl: int,
+  gain_user: float,
   # Data out:
   act_dot_out: wp.array2d[float],
   actuator_force_out: wp.array2d[float],
@@ -1007,7 +1008,8 @@ def _actuator_force(
         ctrl_act = util_misc.dcmotor_voltage(ctrl, length, velocity, x_I, gainprm)
       else:
         ctrl_act = ctrl
-  # GainType.USER: gain stays 0, modified by act_gain_callback
+  elif gaintype == GainType.USER:
+    gain = gain_user  # 1 without act_gain_callback, 0 if the callback adds the gain term
 
   # bias
   biastype = actuator_biastype[uid]
@@ -1196,6 +1198,7 @@ def fwd_actuation(m: Model, d: Data):
       d.actuator_length,
       d.actuator_velocity,
       m.opt.disableflags & DisableBit.CLAMPCTRL,
+      0.0 if m.callback.act_gain else 1.0,
     ],
     outputs=[d.act_dot, d.actuator_force],
   )
